@@ -6,6 +6,7 @@ fn main() {
     // Silence panic messages from subjects that are run under catch_unwind; engines install their own hooks.
     let code = match args.id.as_str() {
         "C16" => hdmc::props::c16::run(&args),
+        "C20" => hdmc::props::c20::run(&args),
         other => {
             eprintln!("MACHINERY-ERROR unknown property {other}");
             2
